@@ -12,6 +12,92 @@ from common import Property, rat, unrat, Infra
 RTOL = 1e-10
 
 
+def shared_auto_run(seed):
+    """Family `shared_auto`: several inputs promoted to one name and fed by one automatic
+    independent variable, declared in different (compatible) units or selecting parts of the source
+    with src_indices; system or problem recorder; loaded into the same or a fresh problem."""
+    import openmdao.api as om
+    rng = random.Random(seed)
+    kind = rng.choice(['units', 'src_indices'])
+    rec = rng.choice(['model', 'problem'])
+    fresh = rng.choice(['same', 'setup', 'final'])
+    n = rng.randint(2, 4)
+    units = rng.sample(['m', 'cm', 'mm', 'km', 'inch'], 2)
+    gains = [rng.choice([2.0, -3.0, 0.5]) for _ in range(2)]
+    idx = [sorted(rng.sample(range(n + 1), rng.randint(1, n))) for _ in range(2)]
+    vals = [rng.choice([5.0, -2.0, 0.5, 7.0, 1.25]) for _ in range(n + 1)]
+
+    def build():
+        p = om.Problem()
+        m = p.model
+        if kind == 'units':
+            for k in range(2):
+                m.add_subsystem('c%d' % k, om.ExecComp('y = %r * x' % gains[k],
+                                                       x={'val': np.ones(n), 'units': units[k]},
+                                                       y=np.ones(n)), promotes_inputs=['x'])
+            m.set_input_defaults('x', units=units[0], val=np.ones(n))
+        else:
+            g = m.add_subsystem('g', om.Group(), promotes_inputs=['x'])
+            for k in range(2):
+                g.add_subsystem('c%d' % k, om.ExecComp('y = %r * x' % gains[k], x=np.ones(len(idx[k])),
+                                                       y=np.ones(len(idx[k]))))
+                g.promotes('c%d' % k, inputs=['x'], src_indices=idx[k], src_shape=(n + 1,))
+        return p
+    pre = '' if kind == 'units' else 'g.'
+    names = ['x'] + [pre + 'c%d.%s' % (k, v) for k in range(2) for v in 'xy']
+    xval = vals[:n] if kind == 'units' else vals
+    res = {'kind': kind, 'recorder': rec, 'fresh': fresh, 'failures': []}
+    cwd = os.getcwd()
+    fn = os.path.join(cwd, 'c19_shared_%d.sql' % seed)
+    if os.path.exists(fn):
+        os.remove(fn)
+    p = build()
+    r = om.SqliteRecorder(fn, record_viewer_data=False)
+    if rec == 'model':
+        p.model.add_recorder(r)
+        p.model.recording_options['record_inputs'] = True
+    else:
+        p.add_recorder(r)
+        p.recording_options['record_inputs'] = True
+        p.recording_options['includes'] = ['*']
+    p.setup()
+    p.set_val('x', xval)
+    p.run_model()
+    if rec == 'problem':
+        p.record('pt')
+    p.cleanup()
+    cr = om.CaseReader(fn)
+    case = cr.get_case(-1) if rec == 'model' else cr.get_case('pt')
+    a = {nm: np.ravel(p.get_val(nm)).tolist() for nm in names}
+    if fresh == 'same':
+        tgt = p
+    else:
+        tgt = build()
+        tgt.setup()
+        if fresh == 'final':
+            tgt.final_setup()
+    if fresh != 'setup':
+        tgt.set_val('x', np.ones(len(xval)))
+        tgt.run_model()
+    try:
+        tgt.load_case(case)
+        got = np.ravel(tgt.get_val('x')).tolist()
+        if not np.allclose(got, a['x'], rtol=1e-12, atol=1e-12):
+            res['failures'].append({'when': 'after load_case', 'var': 'x', 'loaded': got,
+                                    'recorded': a['x']})
+        tgt.run_model()
+        for nm, v in a.items():
+            got = np.ravel(tgt.get_val(nm)).tolist()
+            if not np.allclose(got, v, rtol=1e-10, atol=1e-12):
+                res['failures'].append({'when': 'after load_case and run_model', 'var': nm,
+                                        'loaded': got, 'recorded': v})
+    except Exception as e:
+        res['failures'].append({'when': 'load_case raised', 'var': type(e).__name__,
+                                'loaded': str(e)[:200], 'recorded': None})
+    os.remove(fn)
+    return res
+
+
 class C19(Property):
     pid = 'C19'
     workers = 8
@@ -74,6 +160,10 @@ class C19(Property):
                    'cfg': {'nonlinear': None, 'linear': None}, 'recorder': 'model',
                    'fresh': k % 2 == 0, 'exclude_ivc': False,
                    'exclude_auto_in': rng.randrange(1, 10 ** 6)}
+        # family: one automatic independent variable shared by inputs in different units / with
+        # src_indices
+        for _ in range(10 if tier == 'quick' else 300):
+            yield {'kind': 'shared_auto', 'gen_seed': rng.randrange(10 ** 9)}
         # family: a subsystem overrides System.load_case (the documented hook) and restores its own
         # variables itself; its pathname is, where the model allows, a plain string prefix of a
         # sibling's pathname
@@ -130,6 +220,13 @@ class C19(Property):
 
     def run_impl(self, case):
         import openmdao.api as om
+        if case.get('kind') == 'shared_auto':
+            try:
+                with warnings.catch_warnings():
+                    warnings.simplefilter('ignore')
+                    return shared_auto_run(case['gen_seed'])
+            except Exception as e:
+                return {'error': type(e).__name__, 'msg': str(e)[:300]}
         md = self._md(case)
         res = {}
         try:
@@ -224,6 +321,15 @@ class C19(Property):
         return res
 
     def oracle(self, case, impl):
+        if case.get('kind') == 'shared_auto':
+            if 'error' in impl:
+                return {'what': 'shared_auto: record/load raised %s' % impl['error'], 'msg': impl.get('msg')}
+            if impl['failures']:
+                f = impl['failures'][0]
+                return {'what': 'shared automatic independent variable not restored by load_case (%s)'
+                                % f['when'], 'var': f['var'], 'loaded': f['loaded'],
+                        'recorded': f['recorded'], 'inputs': impl['kind']}
+            return None
         if impl.get('error') == 'AnalysisError':
             return None
         if 'error' in impl:
@@ -284,7 +390,7 @@ class C19(Property):
         return None
 
     def signature(self, case, impl, failure):
-        return {'what': failure.get('what'), 'recorder': case['recorder'], 'fresh': case['fresh']}
+        return {'what': failure.get('what'), 'recorder': case.get('recorder'), 'fresh': case.get('fresh')}
 
     @staticmethod
     def _has_prefix_sibling(md, impl):
@@ -293,9 +399,14 @@ class C19(Property):
         return bool(a) and any(b != a and b.startswith(a) and not b.startswith(a + '.') for b in paths)
 
     def nontrivial(self, case, impl):
+        if case.get('kind') == 'shared_auto':
+            return 'error' not in impl
         return bool(impl.get('b_differs'))
 
     def bucket(self, case, impl):
+        if case.get('kind') == 'shared_auto':
+            return ['shared_auto', 'shared_auto_' + str(impl.get('kind')),
+                    'recorder=' + str(impl.get('recorder')), 'shared_auto_target=' + str(impl.get('fresh'))]
         md = self._md(case)
         return ['solver_reported_failure' if impl.get('error') == 'AnalysisError' else
                 'impl_error' if 'error' in impl else 'impl_ok',
@@ -308,6 +419,8 @@ class C19(Property):
 
     # -- model -----------------------------------------------------------------------------------
     def model_requests(self, case, impl):
+        if case.get('kind') == 'shared_auto':
+            return []
         md = self._md(case)
         if 'error' in impl or md.get('cyclic') or impl.get('excluded'):
             # (with the independent variables left out of the case the restored state is not the
@@ -340,6 +453,8 @@ class C19(Property):
                            for c in spec['comps']]}]
 
     def compare(self, case, impl, answers):
+        if case.get('kind') == 'shared_auto':
+            return None
         if not answers:
             return None
         md = self._md(case)
